@@ -4,36 +4,40 @@ type-ahead buffer, `dispatchKeys` on fed keys `K` (all below 256 — `PopKey` ke
 does what it does on the same keys typed, the unread rest staying in the queue it came from. -/
 namespace RLV
 
-/-- move the typed keys of an engine to the macro queue -/
-def Eng.asFed (e : Eng) : Eng := { e with keys := { e.keys with buf := [], mkeys := e.keys.buf } }
+/-- move the typed keys of an engine to the macro queue; `f` is the `fromMacro` flag (raised as soon as
+a key is taken from that queue) -/
+def Eng.asFedF (f : Bool) (e : Eng) : Eng :=
+  { e with keys := { e.keys with buf := [], mkeys := e.keys.buf, fromMacro := f } }
+
+def Eng.asFed (e : Eng) : Eng := e.asFedF e.keys.fromMacro
 
 theorem dispatchKeys_fed (tbl : List (Seq × Bind)) :
-    ∀ (n : Nat) (e : Eng) (read matched : Seq) (pfx : Bool),
+    ∀ (n : Nat) (e : Eng) (read matched : Seq) (pfx f : Bool),
       e.keys.mkeys = [] → (∀ k ∈ e.keys.buf, k < 256) →
-      dispatchKeys tbl n e.asFed read matched pfx =
+      ∃ f', dispatchKeys tbl n (e.asFedF f) read matched pfx =
         (let r := dispatchKeys tbl n e read matched pfx
-         (r.1.asFed, r.2.1, r.2.2.1, r.2.2.2)) := by
+         (r.1.asFedF f', r.2.1, r.2.2.1, r.2.2.2)) := by
   intro n
   induction n with
-  | zero => intro e read matched pfx _ _; simp [dispatchKeys]
+  | zero => intro e read matched pfx f _ _; exact ⟨f, by simp [dispatchKeys]⟩
   | succ n ih =>
-    intro e read matched pfx hmk hlt
+    intro e read matched pfx f hmk hlt
     cases hb : e.keys.buf with
     | nil =>
-      have hp1 : e.asFed.keys.peek = none := by simp [Eng.asFed, Keys.peek, hb]
+      have hp1 : (e.asFedF f).keys.peek = none := by simp [Eng.asFedF, Keys.peek, hb]
       have hp2 : e.keys.peek = none := by simp [Keys.peek, hb, hmk]
-      simp [dispatchKeys, hp1, hp2]
+      exact ⟨f, by simp [dispatchKeys, hp1, hp2]⟩
     | cons k ks =>
       have hk : k < 256 := hlt k (by simp [hb])
-      have hp1 : e.asFed.keys.peek = some k := by
-        simp [Eng.asFed, Keys.peek, hb, Nat.mod_eq_of_lt hk]
+      have hp1 : (e.asFedF f).keys.peek = some k := by
+        simp [Eng.asFedF, Keys.peek, hb, Nat.mod_eq_of_lt hk]
       have hp2 : e.keys.peek = some k := by simp [Keys.peek, hb]
-      have hpop1 : e.asFed.keys.pop = { e.keys with buf := [], mkeys := ks } := by
-        simp [Eng.asFed, Keys.pop, hb]
+      have hpop1 : (e.asFedF f).keys.pop = { e.keys with buf := [], mkeys := ks, fromMacro := true } := by
+        simp [Eng.asFedF, Keys.pop, hb]
       have hpop2 : e.keys.pop = { e.keys with buf := ks } := by simp [Keys.pop, hb]
       simp only [dispatchKeys, hp1, hp2, hpop1, hpop2]
       split
-      · simp [Eng.asFed, hmk]
+      · exact ⟨true, by simp [Eng.asFedF, hmk]⟩
       · split
         · let e' : Eng := { e with keys := { e.keys with buf := ks },
                                    prefixed := if (matchBind (read ++ [k]) tbl).1.action ≠ "" then (matchBind (read ++ [k]) tbl).1 else e.prefixed }
@@ -41,8 +45,8 @@ theorem dispatchKeys_fed (tbl : List (Seq × Bind)) :
           have h2 : ∀ x ∈ e'.keys.buf, x < 256 := by
             intro x hx
             exact hlt x (by rw [hb]; exact List.mem_cons_of_mem _ hx)
-          have := ih e' (read ++ [k]) (matched ++ [k]) true h1 h2
-          exact this
-        · simp [Eng.asFed, hmk]
+          obtain ⟨f', hf'⟩ := ih e' (read ++ [k]) (matched ++ [k]) true true h1 h2
+          exact ⟨f', hf'⟩
+        · exact ⟨true, by simp [Eng.asFedF, hmk]⟩
 
 end RLV
